@@ -8,7 +8,7 @@ use refimpl as r;
 fn budget(t: Tier) -> u64 {
     match t {
         Tier::Quick => 2_800,
-        Tier::Thorough => 60_000,
+        Tier::Thorough => 120_000,
     }
 }
 
